@@ -6,6 +6,9 @@ CONSTANTS
   UseStop = FALSE
   Flat = FALSE
   Pre = FALSE
+  Shape = "any"
+  MaxP = 1
+  MaxW = 1
 SPECIFICATION Spec
 INVARIANTS InvExact InvRoundTrip InvNearest InvBounded PrintSchedules
 CHECK_DEADLOCK FALSE
